@@ -121,9 +121,12 @@ def draw_time(rng, cls, tf, tstep, others, boundaries):
     return round(rng.uniform(0.05, tf - 0.02), 4)
 
 
-def alter_candidates(case):
+def alter_candidates(case, tconst=False):
     m = case['models']
     out = []
+    if tconst:
+        # time constants of differential equations (inertia): the altered value must enter the integration rule
+        out += [(g, 'M') for g in ('GENROU', 'GENCLS') if m.get(g)] * 2
     if m.get('PQ'):
         out += [('PQ', 'Ppf'), ('PQ', 'Qpf')]
     if m.get('TGOV1'):
@@ -133,7 +136,7 @@ def alter_candidates(case):
     return out
 
 
-def draw_events(rng, case, tf, tstep, boundaries, n_max=6, mild=True, idx_of=None):
+def draw_events(rng, case, tf, tstep, boundaries, n_max=6, mild=True, idx_of=None, tconst=False):
     """
     Seeded event devices (added through System.add before setup).  ``idx_of(model)`` returns the device idx list
     of a model of the loaded case (resolved in the worker).
@@ -147,7 +150,7 @@ def draw_events(rng, case, tf, tstep, boundaries, n_max=6, mild=True, idx_of=Non
         r = rng.random()
         kinds = ['Toggle'] * 5 + ['Fault'] * 2 + ['Alter'] * 3
         kind = rng.choice(kinds)
-        if kind == 'Alter' and not alter_candidates(case):
+        if kind == 'Alter' and not alter_candidates(case, tconst):
             kind = 'Toggle'
         if kind == 'Toggle':
             tgt_model = rng.choice(['Line'] * 4 + ['PQ', 'Shunt'] if case['models'].get('Shunt') else ['Line'] * 4 + ['PQ'])
@@ -172,10 +175,12 @@ def draw_events(rng, case, tf, tstep, boundaries, n_max=6, mild=True, idx_of=Non
             times.append(t + dur)
             classes.append('clear')
         else:
-            mdl, src = rng.choice(alter_candidates(case))
+            mdl, src = rng.choice(alter_candidates(case, tconst))
             dev = rng.choice(idx_of(mdl))
             method = rng.choice(['+', '-', '*', '/', '='])
             amount = {'+': 0.01, '-': 0.01, '*': 1.05, '/': 1.05, '=': 0.0}[method]
+            if src == 'M':
+                method, amount = rng.choice([('*', 1.6), ('*', 0.7), ('/', 1.4), ('+', 2.0)])
             if method == '=' and src in ('Ppf', 'Qpf', 'b'):
                 method, amount = '+', 0.005
             events.append({'model': 'Alter', 'params': {'model': mdl, 'dev': dev, 'src': src, 'attr': 'v', 't': t,
